@@ -632,6 +632,8 @@ def fam_fused(ctx):
             if not ctx.quick:
                 sets += c11._index_sets(min(n, 4), 3)[1:]
             for P in sets:
+                if P is not None and (not P or max(P) >= n or min(P) < 0):
+                    continue
                 try:
                     e = r if P is None else r.substitute_parameters({"_partitions": P})
                     fe = FusedIO(e)
@@ -818,12 +820,12 @@ def fam_pq_lengths(ctx):
                 reqs.append(f"ln pqlengths stats={_nat(stats)} P={'None' if P is None else _nat(P)}")
                 code.append(txt)
             else:
-                reqs.append("ping")
-                code.append("pong" if txt == _nat(stats) else "arrow lengths " + txt)
+                reqs.append(f"ln pqlengthsarrow stats={_nat(stats)} P={'None' if P is None else _nat(P)}")
+                code.append(txt)
             inputs.append({"reader": verb, "P": P})
     model = drive(reqs)
     f.compare(inputs, code, model)
-    f.note = "fsspec reader: the model is the double positional filter of the code; arrow reader: all file lengths whatever _partitions"
+    f.note = "both readers as fixed by D63: lengths of the selected partitions in selection order"
     return f
 
 
